@@ -631,3 +631,40 @@ func ExecuteGiant(cfg Config, n int) (Run, error) {
 	run.Data = sink.Bytes()
 	return run, nil
 }
+
+// ExecuteMany writes n plain objects of irregular size (so that the
+// cross-reference stream does not compress to almost nothing) and closes the
+// file.
+func ExecuteMany(cfg Config, n int, seed int64) (Run, error) {
+	r := rand.New(rand.NewSource(seed))
+	run := Run{Cfg: cfg, ObjStm: cfg.ObjStm(), Seekable: cfg.Seekable, Written: map[[2]int]Written{}, Reads: []Read{}, Seed: seed}
+	version, _ := pdf.ParseVersion(cfg.Version)
+	sink := &memSink{}
+	var out io.Writer = nonSeekable{sink}
+	if cfg.Seekable {
+		out = sink
+	}
+	w, err := pdf.NewWriter(out, version, &pdf.WriterOptions{HumanReadable: cfg.Human})
+	if err != nil {
+		return run, err
+	}
+	for i := 0; i < n; i++ {
+		ref := w.Alloc()
+		v := obj.Array{obj.Int(i), obj.Str(bytes.Repeat([]byte{byte('a' + i%26)}, r.Intn(90)))}
+		if err := w.Put(ref, shared.ToPDF(v)); err != nil {
+			return run, err
+		}
+		run.Written[[2]int{int(ref.Number()), 0}] = Written{ID: "m", Value: v}
+	}
+	pref := w.Alloc()
+	if err := w.Put(pref, pagesDict); err != nil {
+		return run, err
+	}
+	w.GetMeta().Catalog.Pages = pref
+	if err := w.Close(); err != nil {
+		return run, err
+	}
+	run.Closed = true
+	run.Data = sink.Bytes()
+	return run, nil
+}
